@@ -124,6 +124,7 @@ Example C15_nonvacuous :
       let st0 := {| sw := W'; sa := nv_tree; sb := c |} in
       valid_seq nv_edits st0
       /\ write (sw (run nv_edits st0)) (sa (run nv_edits st0)) <> write W' nv_tree
-      /\ refs c = [1005; 1002; 1004; 1006; 1004; 9; 1003]).
+      /\ refs c = [1005; 1002; 1004; 1006; 1004; 9; 1003]
+      /\ smem (hs W' 1007) = [1003]).
 Proof. exact (conj nv_hyps nv_valid). Qed.
 Print Assumptions C15_nonvacuous.
